@@ -10,7 +10,7 @@
 (declare-fun ffmtF (F64) Str)           ; strconv.FormatFloat(f,'f',-1,64)
 (declare-fun hasDot (Str) Bool)         ; strings.Contains(s, ".")
 (declare-fun fmtBool (Bool) Str)        ; strconv.FormatBool
-(declare-fun jquote (Str) Str)          ; JSON string literal denoting the argument
+(declare-fun JQ (Str Str) Bool)         ; JQ(t, x): t is a JSON string literal (RFC 8259 section 7) denoting x
 (declare-const str_null Str)
 (declare-const str_dot0 Str)
 (declare-const str_fmt_kv Str)          ; "%s:%s"
@@ -22,7 +22,7 @@
 (assert (forall ((h Heap)) (! (JV h str_null WNil) :pattern ((JV h str_null WNil)))))
 (assert (forall ((h Heap) (b Bool)) (! (JV h (fmtBool b) (WBool b)) :pattern ((JV h (fmtBool b) (WBool b))))))
 (assert (forall ((h Heap) (i Int)) (! (JV h (itoa i) (WInt i)) :pattern ((JV h (itoa i) (WInt i))))))
-(assert (forall ((h Heap) (x Str)) (! (JV h (jquote x) (WStr x)) :pattern ((JV h (jquote x) (WStr x))))))
+(assert (forall ((h Heap) (t Str) (x Str)) (! (=> (JQ t x) (JV h t (WStr x))) :pattern ((JV h t (WStr x))))))
 ; numbers: each of the three spellings is a JSON number denoting f
 (assert (forall ((h Heap) (f F64)) (! (JV h (ffmtE f) (WFloat f)) :pattern ((JV h (ffmtE f) (WFloat f))))))
 (assert (forall ((h Heap) (f F64)) (! (JV h (ffmtF f) (WFloat f)) :pattern ((JV h (ffmtF f) (WFloat f))))))
@@ -48,14 +48,14 @@
 ; objects: OS(h, s, m, o, i, n): s = '{' followed by the first i members of enumeration o, comma after each but the last
 (declare-fun OS (Heap Str Int (Array Int Str) Int Int) Bool)
 (assert (forall ((h Heap) (m Int) (o (Array Int Str)) (n Int)) (! (OS h (app str_empty (runeStr 123)) m o 0 n) :pattern ((OS h (app str_empty (runeStr 123)) m o 0 n)))))
-(assert (forall ((h Heap) (s Str) (t Str) (m Int) (o (Array Int Str)) (i Int) (n Int)) (!
-  (=> (and (OS h s m o i n) (JV h t (select (select (MVal h) m) (select o i))) (<= 0 i) (< (+ i 1) n))
-      (OS h (app (app s (app (app (jquote (select o i)) (runeStr 58)) t)) (runeStr 44)) m o (+ i 1) n))
-  :pattern ((OS h s m o i n) (app (app s (app (app (jquote (select o i)) (runeStr 58)) t)) (runeStr 44))))))
-(assert (forall ((h Heap) (s Str) (t Str) (m Int) (o (Array Int Str)) (i Int) (n Int)) (!
-  (=> (and (OS h s m o i n) (JV h t (select (select (MVal h) m) (select o i))) (<= 0 i) (= (+ i 1) n))
-      (OS h (app s (app (app (jquote (select o i)) (runeStr 58)) t)) m o n n))
-  :pattern ((OS h s m o i n) (app s (app (app (jquote (select o i)) (runeStr 58)) t))))))
+(assert (forall ((h Heap) (s Str) (t Str) (q Str) (m Int) (o (Array Int Str)) (i Int) (n Int)) (!
+  (=> (and (OS h s m o i n) (JQ q (select o i)) (JV h t (select (select (MVal h) m) (select o i))) (<= 0 i) (< (+ i 1) n))
+      (OS h (app (app s (app (app q (runeStr 58)) t)) (runeStr 44)) m o (+ i 1) n))
+  :pattern ((OS h s m o i n) (app (app s (app (app q (runeStr 58)) t)) (runeStr 44))))))
+(assert (forall ((h Heap) (s Str) (t Str) (q Str) (m Int) (o (Array Int Str)) (i Int) (n Int)) (!
+  (=> (and (OS h s m o i n) (JQ q (select o i)) (JV h t (select (select (MVal h) m) (select o i))) (<= 0 i) (= (+ i 1) n))
+      (OS h (app s (app (app q (runeStr 58)) t)) m o n n))
+  :pattern ((OS h s m o i n) (app s (app (app q (runeStr 58)) t))))))
 (assert (forall ((h Heap) (s Str) (r Int) (o (Array Int Str))) (!
   (=> (and (OS h s (select (Omap h) (impl r)) o (select (MCard h) (select (Omap h) (impl r))) (select (MCard h) (select (Omap h) (impl r))))
            (isEnum o (select (MDom h) (select (Omap h) (impl r))) (select (MCard h) (select (Omap h) (impl r)))))
@@ -92,3 +92,54 @@
 (assert (forall ((i Int)) (! (not (= (itoa i) str_null)) :pattern ((itoa i)))))
 (assert (forall ((f F64)) (! (not (= (ffmtE f) str_null)) :pattern ((ffmtE f)))))
 (assert (forall ((f F64)) (! (and (not (= (ffmtF f) str_null)) (not (= (app (ffmtF f) str_dot0) str_null))) :pattern ((ffmtF f)))))
+
+; ---------------------------------------------------------------------------
+; JSON string literals (RFC 8259 section 7), rune by rune.
+; runeAt / runeLen: the rune that utf8.DecodeRuneInString finds at byte position i and its width
+; (assumed contract of the UTF-8 decoder, the same as the extern contract of DecodeRuneInString).
+; escOK(r, e): e is an admissible spelling of the code point r inside a string literal:
+;   the two-character escapes of the RFC, \uXXXX for a code point of the basic plane, or the
+;   code point itself when it is not a quotation mark, a reverse solidus or a control character.
+; JB(t, s, i): t is a quotation mark followed by admissible spellings of the runes of s[0:i).
+; JQ(t, s):    JB(t', s, len s) and t = t' followed by a quotation mark.
+; Invalid bytes of s are spelled as U+FFFD (what ranging over the string yields); the properties
+; quantify over valid UTF-8 only.
+; ---------------------------------------------------------------------------
+(declare-fun runeAt (Str Int) Int)
+(declare-fun runeLen (Str Int) Int)
+(assert (forall ((s Str) (i Int)) (! (=> (and (<= 0 i) (< i (slen s)))
+   (and (<= 1 (runeLen s i)) (<= (runeLen s i) 4) (<= (+ i (runeLen s i)) (slen s)) (<= 0 (runeAt s i)) (<= (runeAt s i) 1114111)
+        (=> (< (runeAt s i) 128) (and (= (runeLen s i) 1) (= (runeAt s i) (at s i))))))
+   :pattern ((runeLen s i)))))
+(assert (forall ((s Str) (i Int)) (! (=> (and (<= 0 i) (< i (slen s)))
+   (and (<= 0 (runeAt s i)) (<= (runeAt s i) 1114111)
+        (=> (< (runeAt s i) 128) (and (= (runeLen s i) 1) (= (runeAt s i) (at s i))))))
+   :pattern ((runeAt s i)))))
+(define-fun hexv ((c Int)) Int
+  (ite (and (<= 48 c) (<= c 57)) (- c 48) (ite (and (<= 97 c) (<= c 102)) (- c 87) (ite (and (<= 65 c) (<= c 70)) (- c 55) (- 1)))))
+(define-fun esc2 ((e Str) (c Int)) Bool (and (= (slen e) 2) (= (at e 0) 92) (= (at e 1) c)))
+(define-fun escOK ((r Int) (e Str)) Bool
+  (or (and (= r 34) (esc2 e 34)) (and (= r 92) (esc2 e 92)) (and (= r 47) (esc2 e 47))
+      (and (= r 8) (esc2 e 98)) (and (= r 12) (esc2 e 102)) (and (= r 10) (esc2 e 110)) (and (= r 13) (esc2 e 114)) (and (= r 9) (esc2 e 116))
+      (and (= (slen e) 6) (= (at e 0) 92) (= (at e 1) 117)
+           (<= 0 (hexv (at e 2))) (<= 0 (hexv (at e 3))) (<= 0 (hexv (at e 4))) (<= 0 (hexv (at e 5)))
+           (= r (+ (* 4096 (hexv (at e 2))) (* 256 (hexv (at e 3))) (* 16 (hexv (at e 4))) (hexv (at e 5))))
+           (not (and (<= 55296 r) (<= r 57343))))
+      (and (>= r 32) (not (= r 34)) (not (= r 92)) (= e (runeStr r)))))
+(declare-fun JB (Str Str Int) Bool)
+(assert (forall ((s Str)) (! (JB (app str_empty (runeStr 34)) s 0) :pattern ((JB (app str_empty (runeStr 34)) s 0)))))
+; one rune, spelled by one, two or three consecutive writes (app is associative)
+(assert (forall ((t Str) (e Str) (s Str) (i Int)) (!
+  (=> (and (JB t s i) (<= 0 i) (< i (slen s)) (escOK (runeAt s i) e)) (JB (app t e) s (+ i (runeLen s i))))
+  :pattern ((JB t s i) (app t e)))))
+(assert (forall ((t Str) (e1 Str) (e2 Str) (s Str) (i Int)) (!
+  (=> (and (JB t s i) (<= 0 i) (< i (slen s)) (escOK (runeAt s i) (app e1 e2))) (JB (app (app t e1) e2) s (+ i (runeLen s i))))
+  :pattern ((JB t s i) (app (app t e1) e2)))))
+(assert (forall ((t Str) (e1 Str) (e2 Str) (e3 Str) (s Str) (i Int)) (!
+  (=> (and (JB t s i) (<= 0 i) (< i (slen s)) (escOK (runeAt s i) (app (app e1 e2) e3))) (JB (app (app (app t e1) e2) e3) s (+ i (runeLen s i))))
+  :pattern ((JB t s i) (app (app (app t e1) e2) e3)))))
+(assert (forall ((t Str) (s Str)) (! (=> (JB t s (slen s)) (JQ (app t (runeStr 34)) s)) :pattern ((JB t s (slen s)) (app t (runeStr 34))))))
+; length and bytes of concatenations and of single-byte strings
+(assert (forall ((a Str) (b Str)) (! (= (slen (app a b)) (+ (slen a) (slen b))) :pattern ((slen (app a b))))))
+(assert (forall ((a Str) (b Str) (k Int)) (! (= (at (app a b) k) (ite (< k (slen a)) (at a k) (at b (- k (slen a))))) :pattern ((at (app a b) k)))))
+(assert (forall ((b Int)) (! (=> (and (<= 0 b) (<= b 255)) (and (= (slen (byteStr b)) 1) (= (at (byteStr b) 0) b))) :pattern ((byteStr b)))))
